@@ -59,6 +59,7 @@ def run(run):
     common.option_forwarding(run, "C17.R4", "add_place_for_toast", {FT, BLD},
                              "so the index_rel.wtml of a TOAST pyramid comes out without (or with) a Place regardless of what was asked for")
     _r5_fits_tiler(run)
+    _r5_roundtrip(run)
     # the description handed back on the reuse path is what the directory's index says *now*: no remembered copy that can
     # survive a rewrite of the directory
     from . import memo
@@ -481,3 +482,192 @@ def _r5_fits_tiler(run):
             run.holds("C17.R5", g, None, "reuse: description restored from the directory's index_rel.wtml (or refused when there is none)")
         elif not sets:
             run.violated("C17.R5", g, None, "the index loader does not assign builder.imgset / builder.place", kind="index-loader")
+
+
+# ---------------------------------------------------------------------------------------------------------------------
+# reuse path: the index loader reads back what the index writer wrote
+
+
+def _bool_eval(test, assign):
+    """Evaluate the propositional structure of an if-test under a truth assignment of its atoms (keyed by ast.dump)."""
+    if isinstance(test, ast.BoolOp):
+        vals = [_bool_eval(v, assign) for v in test.values]
+        return all(vals) if isinstance(test.op, ast.And) else any(vals)
+    if isinstance(test, ast.UnaryOp) and isinstance(test.op, ast.Not):
+        return not _bool_eval(test.operand, assign)
+    return assign[ast.dump(test)]
+
+
+def _bool_atoms(test, out):
+    if isinstance(test, ast.BoolOp):
+        for v in test.values:
+            _bool_atoms(v, out)
+    elif isinstance(test, ast.UnaryOp) and isinstance(test.op, ast.Not):
+        _bool_atoms(test.operand, out)
+    else:
+        out.setdefault(ast.dump(test), test)
+
+
+class _Undecided(Exception):
+    pass
+
+
+def _written_children(fnode):
+    """All child lists (as tuples of 'ImageSet' / 'Place') the index writer can produce: the writer's body is run for every
+    truth assignment of the atoms of its if-tests."""
+    import itertools
+    atoms = {}
+    for n in own_nodes(fnode):
+        if isinstance(n, ast.If):
+            _bool_atoms(n.test, atoms)
+        elif isinstance(n, (ast.For, ast.While, ast.Try)):
+            raise _Undecided("the index writer contains a %s statement" % type(n).__name__)
+    if len(atoms) > 6:
+        raise _Undecided("too many conditions in the index writer")
+
+    def kind(e):
+        if isinstance(e, ast.Attribute) and isinstance(e.value, ast.Name) and e.value.id == "self":
+            if "imgset" in e.attr or "imageset" in e.attr:
+                return "ImageSet"
+            if "place" in e.attr:
+                return "Place"
+        raise _Undecided("child %s of the written folder is neither the builder's image set nor its place" % ast.unparse(e)[:40])
+
+    def is_children(e):
+        return isinstance(e, ast.Attribute) and e.attr == "children"
+    results = set()
+    keys = sorted(atoms)
+    for bits in itertools.product((False, True), repeat=len(keys)):
+        assign = dict(zip(keys, bits))
+        state = {"children": None}
+
+        def run_block(body):
+            for st in body:
+                if isinstance(st, ast.If):
+                    if run_block(st.body if _bool_eval(st.test, assign) else st.orelse) == "return":
+                        return "return"
+                elif isinstance(st, ast.Return):
+                    return "return"
+                elif isinstance(st, ast.Assign) and len(st.targets) == 1 and is_children(st.targets[0]):
+                    if not isinstance(st.value, (ast.List, ast.Tuple)):
+                        raise _Undecided("folder.children = %s" % ast.unparse(st.value)[:40])
+                    state["children"] = [kind(e) for e in st.value.elts]
+                elif isinstance(st, ast.AugAssign) and is_children(st.target):
+                    if not isinstance(st.value, (ast.List, ast.Tuple)) or state["children"] is None:
+                        raise _Undecided("folder.children += %s" % ast.unparse(st.value)[:40])
+                    state["children"] += [kind(e) for e in st.value.elts]
+                elif isinstance(st, ast.Expr) and isinstance(st.value, ast.Call) and isinstance(st.value.func, ast.Attribute) and is_children(st.value.func.value):
+                    m = st.value.func.attr
+                    if state["children"] is None:
+                        raise _Undecided("folder.children.%s before the list is assigned" % m)
+                    if m == "append" and len(st.value.args) == 1:
+                        state["children"].append(kind(st.value.args[0]))
+                    elif m == "insert" and len(st.value.args) == 2 and isinstance(st.value.args[0], ast.Constant) and st.value.args[0].value == 0:
+                        state["children"].insert(0, kind(st.value.args[1]))
+                    elif m == "extend" and len(st.value.args) == 1 and isinstance(st.value.args[0], (ast.List, ast.Tuple)):
+                        state["children"] += [kind(e) for e in st.value.args[0].elts]
+                    else:
+                        raise _Undecided("folder.children.%s(...)" % m)
+                elif any(is_children(x) for x in ast.walk(st) if isinstance(x, ast.Attribute)) and not isinstance(st, (ast.Return,)):
+                    raise _Undecided("the child list is used in `%s`" % ast.unparse(st)[:50])
+            return None
+        run_block(fnode.body)
+        if state["children"] is not None:
+            results.add(tuple(state["children"]))
+    return results
+
+
+def _load_children(fnode, children):
+    """Run the index loader's loop over a child list given by kinds; returns ('ok', [(target, value is the item, kind)]) or ('raise', line)."""
+    loops = [n for n in own_nodes(fnode) if isinstance(n, ast.For) and isinstance(n.iter, ast.Attribute) and n.iter.attr == "children" and isinstance(n.target, ast.Name)]
+    if len(loops) != 1:
+        raise _Undecided("the index loader has no single loop over the folder's children")
+    loop = loops[0]
+    var = loop.target.id
+    stores = []
+
+    class _Break(Exception):
+        pass
+
+    class _Continue(Exception):
+        pass
+
+    class _Raise(Exception):
+        pass
+
+    def test_value(t, k):
+        if isinstance(t, ast.BoolOp):
+            vals = [test_value(v, k) for v in t.values]
+            return all(vals) if isinstance(t.op, ast.And) else any(vals)
+        if isinstance(t, ast.UnaryOp) and isinstance(t.op, ast.Not):
+            return not test_value(t.operand, k)
+        if isinstance(t, ast.Call) and isinstance(t.func, ast.Name) and t.func.id == "isinstance" and len(t.args) == 2 and isinstance(t.args[0], ast.Name) and t.args[0].id == var:
+            classes = t.args[1].elts if isinstance(t.args[1], ast.Tuple) else [t.args[1]]
+            return any((dotted(c) or "").split(".")[-1] == k for c in classes)
+        raise _Undecided("the index loader tests `%s`" % ast.unparse(t)[:50])
+
+    def run_block(body, k):
+        for st in body:
+            if isinstance(st, ast.If):
+                run_block(st.body if test_value(st.test, k) else st.orelse, k)
+            elif isinstance(st, ast.Assign):
+                for tg in st.targets:
+                    stores.append((ast.unparse(tg), isinstance(st.value, ast.Name) and st.value.id == var, k))
+            elif isinstance(st, ast.Break):
+                raise _Break()
+            elif isinstance(st, ast.Continue):
+                raise _Continue()
+            elif isinstance(st, ast.Raise):
+                raise _Raise(st.lineno)
+            elif isinstance(st, (ast.Expr, ast.Pass)):
+                continue
+            else:
+                raise _Undecided("the index loader's loop contains `%s`" % ast.unparse(st)[:50])
+    try:
+        broke = False
+        for k in children:
+            try:
+                run_block(loop.body, k)
+            except _Continue:
+                continue
+            except _Break:
+                broke = True
+                break
+        if not broke and loop.orelse:
+            run_block(loop.orelse, None)
+    except _Raise as ex:
+        return "raise", ex.args[0]
+    return "ok", stores
+
+
+def _r5_roundtrip(run):
+    project = run.project
+    w = project.funcs.get(BLD + ".Builder.create_wtml_folder")
+    g = project.funcs.get(FT + ".FitsTiler._load_builder_from_index")
+    if w is None or g is None:
+        return
+    run.note_func(w, g)
+    try:
+        lists = _written_children(w.node)
+        if not lists:
+            raise _Undecided("no assignment of the written folder's children found")
+        for children in sorted(lists):
+            outcome, info = _load_children(g.node, children)
+            if outcome == "raise":
+                run.violated("C17.R5", g, None, "the index loader refuses (raise at line %d) an index whose folder lists %s, which Builder.create_wtml_folder writes: "
+                             "a directory tiled by this very code cannot be reused" % (info, list(children)), kind="index-roundtrip")
+                return
+            got_place = any(t.endswith(".place") and is_item and k == "Place" for t, is_item, k in info)
+            got_imgset = any(t.endswith(".imgset") for t, is_item, k in info)
+            if "Place" in children and not got_place:
+                run.violated("C17.R5", g, None, "Builder.create_wtml_folder can write a folder listing %s, but the index loader does not restore the Place from it "
+                             "(it stops before reaching it): on reuse the returned description has a default place (RA 0, Dec 0, zoom 0) while index_rel.wtml records the real one"
+                             % list(children), kind="index-roundtrip")
+                return
+            if not got_imgset:
+                run.violated("C17.R5", g, None, "the index loader does not restore the image set from a folder listing %s" % list(children), kind="index-roundtrip")
+                return
+        run.holds("C17.R5", g, None, "the index loader restores image set and place from each of the %d child lists the index writer can produce (%s)"
+                  % (len(lists), sorted(lists)))
+    except _Undecided as ex:
+        run.undecided("C17.R5", g, None, "index writer / loader round trip: %s" % ex, kind="index-roundtrip-shape")
